@@ -89,6 +89,7 @@ theorem hostGood : HostGood hostObs Good WInv where
     split
     · exact ⟨hw, rfl⟩
     · exact ⟨hw, Or.inr rfl⟩
+    · exact ⟨hw, Or.inr rfl⟩
     · exact ⟨hw, rfl⟩
     · split
       · exact ⟨hw, by simp [Good, good, goodL_ints]⟩
